@@ -41,7 +41,7 @@ fn strategy(_t: Tier) -> BoxedStrategy<Case> {
         .boxed()
 }
 
-fn run(c: &Case) -> Verdict {
+pub fn run(c: &Case) -> Verdict {
     let (x, l0, l1) = match (load(c.fam, &c.f), load(c.fam, &c.c0), load(c.fam, &c.c1)) {
         (Ok(a), Ok(b), Ok(d)) => (a, b, d),
         _ => return pass(false, vec!["skipped:unloadable".into()]),
